@@ -201,7 +201,8 @@ def _one_run(det, p, ro_prev):
     pc.reset()
 
     def _exc(stage, ex, executed):
-        return dict(stage=stage, executed=int(executed), exc=type(ex).__name__, msg=str(ex)[:160], d0=d0, rp0=rp0)
+        return dict(stage=stage, executed=int(executed), exc=type(ex).__name__, msg=str(ex)[:160], d0=d0, rp0=rp0,
+                    d1=pc.buckets(det), rp1=pc.rp_public(det))
 
     # --- the Readout object: a new one, or the one of the previous run (further setter calls below)
     if p.get("reuse"):
@@ -268,7 +269,7 @@ def _one_run(det, p, ro_prev):
     out = _trace(list(pc.LOG))
     if "driver_error" in out:
         return out, ro
-    out.update(stage=None, executed=int(pc.EXEC[0]), d0=d0, rp0=rp0)
+    out.update(stage=None, executed=int(pc.EXEC[0]), d0=d0, rp0=rp0, d1=pc.buckets(det), rp1=pc.rp_public(det))
     return out, ro
 
 
